@@ -98,4 +98,7 @@ func (idGenerator *IDGenerator) updateOffset() {
 func (idGenerator *IDGenerator) setOffset(newoffset int64) {
 	idGenerator.offset = newoffset
 	idGenerator.offset = idGenerator.offset % idGenerator.valueRange
+	if idGenerator.offset < 0 {
+		idGenerator.offset += idGenerator.valueRange
+	}
 }
